@@ -60,6 +60,11 @@ static Case case_from_plan(const Plan &p) {
       for (int k = 0; k < ny; k++) { double s = 0; for (int j = 0; j < px; j++) s += c.X[i][j] * B[j][k]; c.Y[i][k] = s + 0.3 * dr.normal() + 5.0 * k; }
     }
   }
+  if (c.learner != L_LDA && (p.has("xunit_exp") || p.has("yunit_exp"))) {  // variables and responses measured in other units
+    double ux = pow(10.0, p.getd("xunit_exp", 0.0)), uy = pow(10.0, p.getd("yunit_exp", 0.0));
+    for (auto &r : c.X) for (double &v : r) v *= ux;
+    for (auto &r : c.Y) for (double &v : r) v *= uy;
+  }
   for (auto &t : p.list("kgroups")) c.kgroups.push_back((size_t)atoll(t.c_str()));
   // explicit overrides used by minimisation / perturbation: "ymod" = "row:col:value ..."
   for (auto &t : p.list("ymod")) { int r, cc; double v; if (sscanf(t.c_str(), "%d:%d:%lf", &r, &cc, &v) == 3 && r < n && cc < ny) c.Y[r][cc] = v; }
@@ -296,6 +301,7 @@ struct HCv : Harness {
       p.setlist("kgroups", g);
     }
     if (!c06) {
+      if (learner != L_LDA && wr.chance(0.3)) { p.setd("xunit_exp", wr.uniform(-2.0, 2.0)); p.setd("yunit_exp", wr.uniform(-3.0, 3.0)); }
       p.seti("perturb_object", (int)wr.below(n));
       p.seti("infer_folds", routine == R_BOOT && iters == 1 && n <= 14 && learner != L_LDA ? 1 : 0);
       p.seti("sched.detect", 0);
